@@ -74,4 +74,235 @@ theorem escr_exact (c : Bytes) (h3 : 3 ≤ c.length) :
       simp [resOf]
     · simp [hl, resOf]
 
+theorem esRate_exact (c : Bytes) (h3 : 3 ≤ c.length) :
+    Pes.esRate c = .ok (resOf id (parse c).esRate) := by
+  have hf := byteD_lt c 1
+  unfold Pes.esRate Pes.flagsByte
+  rw [byteAt_ok c 1 (by omega)]
+  simp only [R.ok_bind]
+  rw [parse_esRate, flagsOf_eq, esRateFlag_eq _ hf, escrEnd_eq _ hf]
+  generalize flagsOfByte (byteD c 1) = F
+  simp only [R.ok_bind, Pes.ES_RATE_SIZE]
+  rw [headerSlice_eq c h3]
+  unfold fieldAt
+  have hlen := limit_le c
+  cases he : F.esRate
+  · simp [resOf]
+  · by_cases hl : curEsRate F + 3 ≤ limit c
+    · simp only [hl, if_true, R.ok_bind]
+      rw [byteAt_slice c _ 3 0 (by omega) (by omega), byteAt_slice c _ 3 1 (by omega) (by omega),
+        byteAt_slice c _ 3 2 (by omega) (by omega)]
+      simp only [R.ok_bind, Nat.add_zero]
+      rw [esRate_val]
+      unfold assertR
+      simp only [decide_eq_true (esRateAt_lt c (curEsRate F)), if_true, R.ok_bind]
+      simp [resOf]
+    · simp [hl, resOf]
+
+theorem dsmTrickMode_exact (c : Bytes) (h3 : 3 ≤ c.length) :
+    Pes.dsmTrickMode c = .ok (resOf trickConv (parse c).trick) := by
+  have hf := byteD_lt c 1
+  unfold Pes.dsmTrickMode Pes.flagsByte
+  rw [byteAt_ok c 1 (by omega)]
+  simp only [R.ok_bind]
+  rw [parse_trick, flagsOf_eq, trickFlag_eq _ hf, esRateEnd_eq _ hf]
+  generalize flagsOfByte (byteD c 1) = F
+  simp only [R.ok_bind]
+  rw [headerSlice_eq c h3]
+  unfold fieldAt
+  have hlen := limit_le c
+  cases he : F.trick
+  · simp [resOf]
+  · by_cases hl : curTrick F + 1 ≤ limit c
+    · simp only [hl, if_true, R.ok_bind]
+      rw [byteAt_slice c _ 1 0 (by omega) (by omega)]
+      simp only [R.ok_bind, Nat.add_zero]
+      rw [trick_val]
+      simp [resOf]
+    · simp [hl, resOf]
+
+theorem additionalCopyInfo_exact (c : Bytes) (h3 : 3 ≤ c.length) :
+    Pes.additionalCopyInfo c = .ok (copyInfoRes (parse c).copyInfo) := by
+  have hf := byteD_lt c 1
+  unfold Pes.additionalCopyInfo Pes.flagsByte
+  rw [byteAt_ok c 1 (by omega)]
+  simp only [R.ok_bind]
+  rw [parse_copyInfo, flagsOf_eq, aciFlag_eq _ hf, trickEnd_eq _ hf]
+  generalize flagsOfByte (byteD c 1) = F
+  simp only [R.ok_bind]
+  rw [headerSlice_eq c h3]
+  unfold fieldAt
+  have hlen := limit_le c
+  cases he : F.copyInfo
+  · simp [copyInfoRes]
+  · by_cases hl : curCopyInfo F + 1 ≤ limit c
+    · simp only [hl, if_true, R.ok_bind]
+      rw [byteAt_slice c _ 1 0 (by omega) (by omega)]
+      simp only [R.ok_bind, Nat.add_zero]
+      have v := aci_val c (curCopyInfo F)
+      by_cases hm : (byteD c (curCopyInfo F) &&& 0b1000_0000 == 0) = true
+      · simp only [hm, if_true] at v ⊢
+        simp [← v]
+      · simp only [hm] at v ⊢
+        simp [← v]
+    · simp [hl, copyInfoRes]
+
+theorem previousCrc_exact (c : Bytes) (h3 : 3 ≤ c.length) :
+    Pes.previousCrc c = .ok (resOf id (parse c).prevCrc) := by
+  have hf := byteD_lt c 1
+  unfold Pes.previousCrc Pes.flagsByte
+  rw [byteAt_ok c 1 (by omega)]
+  simp only [R.ok_bind]
+  rw [parse_prevCrc, flagsOf_eq, crcFlag_eq _ hf, aciEnd_eq _ hf]
+  generalize flagsOfByte (byteD c 1) = F
+  simp only [R.ok_bind]
+  rw [headerSlice_eq c h3]
+  unfold fieldAt
+  have hlen := limit_le c
+  cases he : F.crc
+  · simp [resOf]
+  · by_cases hl : curCrc F + 2 ≤ limit c
+    · simp only [hl, if_true, R.ok_bind]
+      rw [byteAt_slice c _ 2 0 (by omega) (by omega), byteAt_slice c _ 2 1 (by omega) (by omega)]
+      simp only [R.ok_bind, Nat.add_zero]
+      rw [crc_val]
+      simp [resOf]
+    · simp [hl, resOf]
+
+/-- `pes_extension()` slices `buf[crc_end .. 3 + hdl]`; the slice start may lie after its end
+only for receivers `from_bytes` rejects, hence the hypothesis (implied by acceptance). -/
+theorem pesExtension_exact (c : Bytes) (h3 : 3 ≤ c.length)
+    (hx : fixedFieldsEnd (flagsOf c) ≤ 3 + hdl c ∨ c.length < 3 + hdl c) :
+    Pes.pesExtension c = .ok (resOf id (parse c).extension) := by
+  have hf := byteD_lt c 1
+  unfold Pes.pesExtension Pes.flagsByte Pes.hdl
+  rw [byteAt_ok c 1 (by omega), byteAt_ok c 2 (by omega)]
+  simp only [R.ok_bind]
+  rw [fixedFieldsEnd_eq, hdl_eq] at hx
+  rw [parse_extension, hdl_eq]
+  rw [flagsOf_eq] at hx ⊢
+  rw [extFlag_eq _ hf, crcEnd_eq _ hf]
+  generalize flagsOfByte (byteD c 1) = F at *
+  simp only [R.ok_bind, Pes.FIXED]
+  cases he : F.ext
+  · simp [resOf]
+  · simp only [if_true, Bool.not_true, Bool.false_eq_true, if_false]
+    unfold Pes.headerSlice Pes.hdl
+    rw [byteAt_ok c 2 (by omega)]
+    simp only [R.ok_bind, Pes.FIXED, Nat.lt_irrefl, gt_iff_lt, if_false]
+    by_cases h2 : c.length < byteD c 2 + 3
+    · have : ¬ (curExt F ≤ 3 + byteD c 2 ∧ 3 + byteD c 2 ≤ c.length) := by omega
+      simp [h2, this, resOf]
+    · have h4 : curExt F ≤ 3 + byteD c 2 := by omega
+      have : (curExt F ≤ 3 + byteD c 2 ∧ 3 + byteD c 2 ≤ c.length) := by omega
+      have e : byteD c 2 + 3 = curExt F + (3 + byteD c 2 - curExt F) := by omega
+      simp only [h2, if_false, this, and_self, if_true]
+      rw [e, sliceR_ok c (curExt F) _ (by omega)]
+      simp only [R.ok_bind, R.pure_eq, resOf, id]
+      rw [length_slice c _ _ (by omega)]
+
+theorem payloadOffset_exact (c : Bytes) (h3 : 3 ≤ c.length) (hh : 3 + hdl c ≤ c.length) :
+    Pes.payloadOffset c = .ok (parse c).payloadOffset := by
+  unfold Pes.payloadOffset Pes.hdl
+  rw [parse_payloadOffset]
+  rw [hdl_eq] at hh ⊢
+  rw [byteAt_ok c 2 (by omega)]
+  simp only [R.ok_bind, Pes.FIXED]
+  rw [sliceFrom_ok c _ hh]
+  rfl
+
+/-! ### the single-bit accessors of byte 0 -/
+
+theorem pesPriority_exact (c : Bytes) (h3 : 3 ≤ c.length) :
+    Pes.pesPriority c = .ok (parse c).priority := by
+  unfold Pes.pesPriority
+  rw [byteAt_ok c 0 (by omega), (parse_bits c).1, rb c 4 0 4 1 (by omega) (by omega)]
+  simp only [R.ok_bind, R.pure_eq, Nat.shiftRight_eq_div_pow, Nat.and_one_is_mod]
+
+theorem dataAlignment_exact (c : Bytes) (h3 : 3 ≤ c.length) :
+    Pes.dataAlignment c = .ok (parse c).dataAlignment := by
+  unfold Pes.dataAlignment
+  rw [byteAt_ok c 0 (by omega), (parse_bits c).2.1, flagBit_eq c 5 0 5 (by omega) (by omega)]
+  simp only [R.ok_bind, R.pure_eq, and_04 _ (byteD_lt c 0)]
+
+theorem copyright_pinned (c : Bytes) (h3 : 3 ≤ c.length) :
+    Pes.copyrightUndefined c = .ok (flagBit c 6) := by
+  unfold Pes.copyrightUndefined
+  rw [byteAt_ok c 0 (by omega), flagBit_eq c 6 0 6 (by omega) (by omega)]
+  simp only [R.ok_bind, R.pure_eq, and_02 _ (byteD_lt c 0)]
+
+theorem original_exact (c : Bytes) (h3 : 3 ≤ c.length) :
+    Pes.original c = .ok (parse c).original := by
+  unfold Pes.original
+  rw [byteAt_ok c 0 (by omega), (parse_bits c).2.2.2, flagBit_eq c 7 0 7 (by omega) (by omega)]
+  simp only [R.ok_bind, R.pure_eq, and_01 _ (byteD_lt c 0), Nat.reduceSub, Nat.pow_zero, Nat.div_one]
+
+/-! ### acceptance -/
+
+theorem headerFromBytes_eq (buf : Bytes) :
+    Pes.headerFromBytes buf = .ok (if 6 ≤ buf.length ∧ readBits buf 0 24 = 1 then some buf else none) := by
+  unfold Pes.headerFromBytes Pes.HDR_FIXED
+  by_cases hl : buf.length < 6
+  · have : ¬ (6 ≤ buf.length ∧ readBits buf 0 24 = 1) := by omega
+    simp [hl, this]
+  · rw [byteAt_ok buf 0 (by omega), byteAt_ok buf 1 (by omega), byteAt_ok buf 2 (by omega)]
+    rw [rb_8_8_8 buf 0 0 rfl]
+    have h0 := byteD_lt buf 0; have h1 := byteD_lt buf 1; have h2 := byteD_lt buf 2
+    simp only [hl, if_false, R.ok_bind, Nat.shiftLeft_eq, Nat.zero_add]
+    have e : byteD buf 0 * 2 ^ 16 ||| byteD buf 1 * 2 ^ 8 ||| byteD buf 2
+        = byteD buf 0 * 65536 + byteD buf 1 * 256 + byteD buf 2 := by
+      simp (disch := omega) only [or_eq_add 8, or_eq_add 16]
+    rw [e]
+    by_cases hp : byteD buf 0 * 65536 + byteD buf 1 * 256 + byteD buf 2 = 1
+    · have : 6 ≤ buf.length := by omega
+      simp [hp, this]
+    · simp [hp]
+
+theorem parsedAccepted_iff (c : Bytes) : parsedAccepted c ↔
+    (3 ≤ c.length ∧ byteD c 0 / 64 = 2 ∧ 3 + byteD c 2 ≤ c.length
+      ∧ curExt (flagsOfByte (byteD c 1)) ≤ 3 + byteD c 2) := by
+  unfold parsedAccepted
+  rw [rb c 0 0 0 2 (by omega) (by omega), hdl_eq, fixedFieldsEnd_eq, flagsOf_eq]
+  have h0 := byteD_lt c 0
+  have e0 : byteD c 0 / 2 ^ (8 - 0 - 2) % 2 ^ 2 = byteD c 0 / 64 := by omega
+  rw [e0]
+
+theorem parsedFromBytes_eq (c : Bytes) :
+    Pes.parsedFromBytes c = .ok (if parsedAccepted c then some c else none) := by
+  have hacc := parsedAccepted_iff c
+  unfold Pes.parsedFromBytes Pes.FIXED Pes.hdl Pes.flagsByte
+  by_cases hl : c.length < 3
+  · have : ¬ parsedAccepted c := by rw [hacc]; omega
+    simp [hl, this]
+  · have h3 : 3 ≤ c.length := by omega
+    have hf := byteD_lt c 1
+    rw [byteAt_ok c 0 (by omega), byteAt_ok c 1 (by omega), byteAt_ok c 2 (by omega)]
+    simp only [hl, if_false, R.ok_bind, shr6 _ (byteD_lt c 0), crcEnd_eq _ hf]
+    have hce := three_le_curExt (flagsOfByte (byteD c 1))
+    generalize curExt (flagsOfByte (byteD c 1)) = ce at *
+    by_cases hm : byteD c 0 / 64 = 2
+    · by_cases hh : 3 + byteD c 2 > c.length
+      · have : ¬ parsedAccepted c := by rw [hacc]; omega
+        simp [hm, hh, this, subR, h3]
+      · by_cases hc : ce > 3 + byteD c 2
+        · have : ¬ parsedAccepted c := by rw [hacc]; omega
+          simp [hm, hh, hc, this, subR, hce]
+        · have : parsedAccepted c := by rw [hacc]; omega
+          simp [hm, hh, hc, this]
+    · have : ¬ parsedAccepted c := by rw [hacc]; omega
+      simp [hm, this]
+
+theorem isParsed_table : ∀ sid, sid < 256 → Pes.isParsed sid = !(noHeaderIds.contains sid) := by
+  decide +kernel
+
+theorem contents_eq (buf : Bytes) (h : 6 ≤ buf.length) :
+    Pes.contents buf = .ok (if readBits buf 24 8 ∈ noHeaderIds then .payload (buf.drop 6)
+      else .parsed (if parsedAccepted (buf.drop 6) then some (buf.drop 6) else none)) := by
+  unfold Pes.contents Pes.streamId Pes.HDR_FIXED
+  rw [sliceFrom_ok buf 6 h, byteAt_ok buf 3 (by omega), rb_byte buf 24 3 rfl]
+  simp only [R.ok_bind, isParsed_table _ (byteD_lt buf 3), parsedFromBytes_eq]
+  by_cases hm : byteD buf 3 ∈ noHeaderIds
+  · simp [hm]
+  · simp [hm]
+
 end Ts.Lemmas.C14
